@@ -6,153 +6,153 @@ import (
 	"strings"
 )
 
-type kind int
+type dmKind int
 
 const (
-	kInt kind = iota // every number type (name = Int, Int8, UInt64, Word8, UFix64, Fix64, ...)
-	kBool
-	kString
-	kAddress
-	kChar
-	kOpt
-	kArr
-	kCArr
-	kDict
-	kStruct
-	kRes
-	kEnum
-	kRef
-	kFun
-	kAnyStruct
-	kAnyRes
-	kIface // intersection {I}
-	kRange // InclusiveRange<Int>
-	kVoid
+	dmKInt dmKind = iota // every number type (name = Int, Int8, UInt64, Word8, UFix64, Fix64, ...)
+	dmKBool
+	dmKString
+	dmKAddress
+	dmKChar
+	dmKOpt
+	dmKArr
+	dmKCArr
+	dmKDict
+	dmKStruct
+	dmKRes
+	dmKEnum
+	dmKRef
+	dmKFun
+	dmKAnyStruct
+	dmKAnyRes
+	dmKIface // intersection {I}
+	dmKRange // InclusiveRange<Int>
+	dmKVoid
 )
 
 // qualCtx: how types declared in a contract are named: unqualified inside the contract,
 // with the contract prefix outside.
-type qualCtx struct {
+type dmQualCtx struct {
 	prefix  string
 	outside bool
 }
 
-func (q *qualCtx) name(n string) string {
+func (q *dmQualCtx) name(n string) string {
 	if q != nil && q.outside {
 		return q.prefix + n
 	}
 	return n
 }
 
-type ty struct {
-	q      *qualCtx
-	k      kind
+type dmTy struct {
+	q      *dmQualCtx
+	k      dmKind
 	name   string
-	elem   *ty
-	key    *ty
+	elem   *dmTy
+	key    *dmTy
 	n      int
-	params []*ty
-	ret    *ty
+	params []*dmTy
+	ret    *dmTy
 	auth   string
-	comp   *comp
-	iface  *iface
+	comp   *dmComp
+	iface  *dmIface
 }
 
 var (
-	tInt       = &ty{k: kInt, name: "Int"}
-	tInt8      = &ty{k: kInt, name: "Int8"}
-	tInt64     = &ty{k: kInt, name: "Int64"}
-	tUInt8     = &ty{k: kInt, name: "UInt8"}
-	tUInt64    = &ty{k: kInt, name: "UInt64"}
-	tWord8     = &ty{k: kInt, name: "Word8"}
-	tUFix64    = &ty{k: kInt, name: "UFix64"}
-	tFix64     = &ty{k: kInt, name: "Fix64"}
-	tInt256    = &ty{k: kInt, name: "Int256"}
-	tUInt      = &ty{k: kInt, name: "UInt"}
-	tBool      = &ty{k: kBool, name: "Bool"}
-	tString    = &ty{k: kString, name: "String"}
-	tAddress   = &ty{k: kAddress, name: "Address"}
-	tChar      = &ty{k: kChar, name: "Character"}
-	tAnyStruct = &ty{k: kAnyStruct, name: "AnyStruct"}
-	tAnyRes    = &ty{k: kAnyRes, name: "AnyResource"}
-	tVoid      = &ty{k: kVoid, name: "Void"}
-	tRange     = &ty{k: kRange, name: "InclusiveRange<Int>"}
+	dmTInt       = &dmTy{k: dmKInt, name: "Int"}
+	dmTInt8      = &dmTy{k: dmKInt, name: "Int8"}
+	dmTInt64     = &dmTy{k: dmKInt, name: "Int64"}
+	dmTUInt8     = &dmTy{k: dmKInt, name: "UInt8"}
+	dmTUInt64    = &dmTy{k: dmKInt, name: "UInt64"}
+	dmTWord8     = &dmTy{k: dmKInt, name: "Word8"}
+	dmTUFix64    = &dmTy{k: dmKInt, name: "UFix64"}
+	dmTFix64     = &dmTy{k: dmKInt, name: "Fix64"}
+	dmTInt256    = &dmTy{k: dmKInt, name: "Int256"}
+	dmTUInt      = &dmTy{k: dmKInt, name: "UInt"}
+	dmTBool      = &dmTy{k: dmKBool, name: "Bool"}
+	dmTString    = &dmTy{k: dmKString, name: "String"}
+	dmTAddress   = &dmTy{k: dmKAddress, name: "Address"}
+	dmTChar      = &dmTy{k: dmKChar, name: "Character"}
+	dmTAnyStruct = &dmTy{k: dmKAnyStruct, name: "AnyStruct"}
+	dmTAnyRes    = &dmTy{k: dmKAnyRes, name: "AnyResource"}
+	dmTVoid      = &dmTy{k: dmKVoid, name: "Void"}
+	dmTRange     = &dmTy{k: dmKRange, name: "InclusiveRange<Int>"}
 
-	numTypes = []*ty{tInt, tInt, tInt, tInt8, tInt64, tUInt8, tUInt64, tWord8, tUFix64, tFix64, tInt256, tUInt}
+	dmNumTypes = []*dmTy{dmTInt, dmTInt, dmTInt, dmTInt8, dmTInt64, dmTUInt8, dmTUInt64, dmTWord8, dmTUFix64, dmTFix64, dmTInt256, dmTUInt}
 )
 
-func opt(t *ty) *ty         { return &ty{k: kOpt, elem: t} }
-func arr(t *ty) *ty         { return &ty{k: kArr, elem: t} }
-func carr(t *ty, n int) *ty { return &ty{k: kCArr, elem: t, n: n} }
-func dict(k, v *ty) *ty     { return &ty{k: kDict, key: k, elem: v} }
-func ref(t *ty) *ty         { return &ty{k: kRef, elem: t} }
-func aref(auth string, t *ty) *ty {
-	return &ty{k: kRef, elem: t, auth: auth}
+func dmOpt(t *dmTy) *dmTy         { return &dmTy{k: dmKOpt, elem: t} }
+func dmArr(t *dmTy) *dmTy         { return &dmTy{k: dmKArr, elem: t} }
+func dmCarr(t *dmTy, n int) *dmTy { return &dmTy{k: dmKCArr, elem: t, n: n} }
+func dmDict(k, v *dmTy) *dmTy     { return &dmTy{k: dmKDict, key: k, elem: v} }
+func dmRef(t *dmTy) *dmTy         { return &dmTy{k: dmKRef, elem: t} }
+func dmAref(auth string, t *dmTy) *dmTy {
+	return &dmTy{k: dmKRef, elem: t, auth: auth}
 }
-func fun(ret *ty, params ...*ty) *ty { return &ty{k: kFun, params: params, ret: ret} }
+func dmFun(ret *dmTy, params ...*dmTy) *dmTy { return &dmTy{k: dmKFun, params: params, ret: ret} }
 
-func (t *ty) isRes() bool {
+func (t *dmTy) isRes() bool {
 	switch t.k {
-	case kRes, kAnyRes:
+	case dmKRes, dmKAnyRes:
 		return true
-	case kIface:
+	case dmKIface:
 		return t.iface.isRes
-	case kOpt, kArr, kCArr, kDict:
+	case dmKOpt, dmKArr, dmKCArr, dmKDict:
 		return t.elem.isRes()
 	}
 	return false
 }
 
-func (t *ty) isSigned() bool {
-	return t.k == kInt && (strings.HasPrefix(t.name, "Int") || t.name == "Fix64")
+func (t *dmTy) isSigned() bool {
+	return t.k == dmKInt && (strings.HasPrefix(t.name, "Int") || t.name == "Fix64")
 }
-func (t *ty) isFix() bool  { return t.k == kInt && strings.HasSuffix(t.name, "Fix64") }
-func (t *ty) isWord() bool { return t.k == kInt && strings.HasPrefix(t.name, "Word") }
+func (t *dmTy) isFix() bool  { return t.k == dmKInt && strings.HasSuffix(t.name, "Fix64") }
+func (t *dmTy) isWord() bool { return t.k == dmKInt && strings.HasPrefix(t.name, "Word") }
 
 // String renders the type without the resource marker.
-func (t *ty) String() string {
+func (t *dmTy) String() string {
 	switch t.k {
-	case kOpt:
-		if t.elem.k == kRef || t.elem.k == kFun {
+	case dmKOpt:
+		if t.elem.k == dmKRef || t.elem.k == dmKFun {
 			return "(" + t.elem.String() + ")?"
 		}
 		return t.elem.String() + "?"
-	case kArr:
+	case dmKArr:
 		return "[" + t.elem.String() + "]"
-	case kCArr:
-		return "[" + t.elem.String() + "; " + itoa(t.n) + "]"
-	case kDict:
+	case dmKCArr:
+		return "[" + t.elem.String() + "; " + dmItoa(t.n) + "]"
+	case dmKDict:
 		return "{" + t.key.String() + ": " + t.elem.String() + "}"
-	case kRef:
+	case dmKRef:
 		if t.auth != "" {
 			return "auth(" + t.auth + ") &" + t.elem.String()
 		}
 		return "&" + t.elem.String()
-	case kFun:
+	case dmKFun:
 		var ps []string
 		for _, p := range t.params {
 			ps = append(ps, p.anno())
 		}
 		return "fun(" + strings.Join(ps, ", ") + "): " + t.ret.anno()
-	case kIface:
+	case dmKIface:
 		return "{" + t.q.name(t.name) + "}"
-	case kStruct, kRes, kEnum:
+	case dmKStruct, dmKRes, dmKEnum:
 		return t.q.name(t.name)
 	}
 	return t.name
 }
 
 // anno renders the type as an annotation (with @ for resources).
-func (t *ty) anno() string {
+func (t *dmTy) anno() string {
 	if t.isRes() {
 		return "@" + t.String()
 	}
 	return t.String()
 }
 
-func (t *ty) eq(u *ty) bool { return t.String() == u.String() }
+func (t *dmTy) eq(u *dmTy) bool { return t.String() == u.String() }
 
-func itoa(n int) string {
+func dmItoa(n int) string {
 	if n == 0 {
 		return "0"
 	}
@@ -172,32 +172,32 @@ func itoa(n int) string {
 }
 
 // sub: static subtyping as far as the generator relies on it (sound, not complete).
-func sub(a, b *ty) bool {
+func dmSub(a, b *dmTy) bool {
 	if a.eq(b) {
 		return true
 	}
 	switch b.k {
-	case kAnyStruct:
+	case dmKAnyStruct:
 		return !a.isRes()
-	case kAnyRes:
+	case dmKAnyRes:
 		return a.isRes()
-	case kOpt:
-		if a.k == kOpt {
-			return sub(a.elem, b.elem)
+	case dmKOpt:
+		if a.k == dmKOpt {
+			return dmSub(a.elem, b.elem)
 		}
-		return sub(a, b.elem)
-	case kArr:
-		return a.k == kArr && sub(a.elem, b.elem)
-	case kCArr:
-		return a.k == kCArr && a.n == b.n && sub(a.elem, b.elem)
-	case kDict:
-		return a.k == kDict && a.key.eq(b.key) && sub(a.elem, b.elem)
-	case kIface:
-		if (a.k == kStruct || a.k == kRes) && a.comp != nil {
+		return dmSub(a, b.elem)
+	case dmKArr:
+		return a.k == dmKArr && dmSub(a.elem, b.elem)
+	case dmKCArr:
+		return a.k == dmKCArr && a.n == b.n && dmSub(a.elem, b.elem)
+	case dmKDict:
+		return a.k == dmKDict && a.key.eq(b.key) && dmSub(a.elem, b.elem)
+	case dmKIface:
+		if (a.k == dmKStruct || a.k == dmKRes) && a.comp != nil {
 			return a.comp.conforms(b.iface)
 		}
-	case kRef:
-		if a.k != kRef {
+	case dmKRef:
+		if a.k != dmKRef {
 			return false
 		}
 		if b.auth != "" && a.auth != b.auth {
@@ -208,8 +208,8 @@ func sub(a, b *ty) bool {
 		}
 		// &S <: &{I}, &S <: &AnyStruct
 		switch b.elem.k {
-		case kAnyStruct, kAnyRes, kIface:
-			return sub(a.elem, b.elem)
+		case dmKAnyStruct, dmKAnyRes, dmKIface:
+			return dmSub(a.elem, b.elem)
 		}
 	}
 	return false
@@ -217,61 +217,61 @@ func sub(a, b *ty) bool {
 
 // ------------------------------------------------------------------ declarations
 
-type param struct {
+type dmParam struct {
 	label string // "_" : no label; "" : label = name
 	name  string
-	t     *ty
+	t     *dmTy
 }
 
-type fnDecl struct {
-	q        *qualCtx
+type dmFnDecl struct {
+	q        *dmQualCtx
 	name     string
-	params   []param
-	ret      *ty
+	params   []dmParam
+	ret      *dmTy
 	qual     string // prefix for calls from outside ("C." for contract functions)
 	view     bool
 	access   string // entitlement required through references ("" = access(all))
 	mutating bool   // changes self
 }
 
-func (f *fnDecl) ftype() *ty {
-	var ps []*ty
+func (f *dmFnDecl) ftype() *dmTy {
+	var ps []*dmTy
 	for _, p := range f.params {
 		ps = append(ps, p.t)
 	}
-	return fun(f.ret, ps...)
+	return dmFun(f.ret, ps...)
 }
 
-type field struct {
+type dmField struct {
 	name   string
-	t      *ty
+	t      *dmTy
 	mut    bool
 	access string // "all" | "self" | entitlement name | "mapping M"
 }
 
-type iface struct {
-	q       *qualCtx
+type dmIface struct {
+	q       *dmQualCtx
 	name    string
 	isRes   bool
-	methods []*fnDecl
-	fields  []field
-	parents []*iface
+	methods []*dmFnDecl
+	fields  []dmField
+	parents []*dmIface
 	qual    string
 }
 
-func (i *iface) ref() string { return i.q.name(i.name) }
+func (i *dmIface) ref() string { return i.q.name(i.name) }
 
-func (i *iface) ty() *ty { return &ty{k: kIface, name: i.name, iface: i, q: i.q} }
+func (i *dmIface) ty() *dmTy { return &dmTy{k: dmKIface, name: i.name, iface: i, q: i.q} }
 
-func (i *iface) allMethods() []*fnDecl {
-	out := append([]*fnDecl{}, i.methods...)
+func (i *dmIface) allMethods() []*dmFnDecl {
+	out := append([]*dmFnDecl{}, i.methods...)
 	for _, p := range i.parents {
 		out = append(out, p.allMethods()...)
 	}
 	return out
 }
 
-func (i *iface) extends(j *iface) bool {
+func (i *dmIface) extends(j *dmIface) bool {
 	if i == j {
 		return true
 	}
@@ -283,18 +283,18 @@ func (i *iface) extends(j *iface) bool {
 	return false
 }
 
-type comp struct {
+type dmComp struct {
 	name    string
 	isRes   bool
-	fields  []field
-	methods []*fnDecl
-	conf    []*iface
+	fields  []dmField
+	methods []*dmFnDecl
+	conf    []*dmIface
 	qual    string
-	t       *ty
-	atts    []*attachment
+	t       *dmTy
+	atts    []*dmAttachment
 }
 
-func (c *comp) conforms(i *iface) bool {
+func (c *dmComp) conforms(i *dmIface) bool {
 	for _, j := range c.conf {
 		if j.extends(i) {
 			return true
@@ -303,8 +303,8 @@ func (c *comp) conforms(i *iface) bool {
 	return false
 }
 
-func (c *comp) allMethods() []*fnDecl {
-	out := append([]*fnDecl{}, c.methods...)
+func (c *dmComp) allMethods() []*dmFnDecl {
+	out := append([]*dmFnDecl{}, c.methods...)
 	for _, i := range c.conf {
 		for _, m := range i.allMethods() {
 			dup := false
@@ -321,7 +321,7 @@ func (c *comp) allMethods() []*fnDecl {
 	return out
 }
 
-func (c *comp) field(name string) *field {
+func (c *dmComp) field(name string) *dmField {
 	for i := range c.fields {
 		if c.fields[i].name == name {
 			return &c.fields[i]
@@ -330,15 +330,15 @@ func (c *comp) field(name string) *field {
 	return nil
 }
 
-type attachment struct {
-	q       *qualCtx
+type dmAttachment struct {
+	q       *dmQualCtx
 	name    string
-	base    *comp
-	methods []*fnDecl
+	base    *dmComp
+	methods []*dmFnDecl
 }
 
-type enumDecl struct {
+type dmEnumDecl struct {
 	name  string
 	cases []string
-	t     *ty
+	t     *dmTy
 }
